@@ -246,3 +246,19 @@ package nexus
 //@     invariant [well_formed] pw(p) && p.s == old(p.s) && p.s.r == old(p.s.r)
 //@     invariant [measure_does_not_grow] pm(p) <= old(pm(p)) && pm(p) <= lold(pm(p))
 //@     decreases pm(p) + (tok4 == EOF ? 0 : 1)
+
+// ---------------------------------------------------------------------------
+// WriteNexus (property C13): a label met for the first time gets the next free number as identifier, the tree is
+// renamed with that table (on a clone) when translating, and the TRANSLATE block prints, for every label, the
+// identifier stored for it followed by the label
+// ---------------------------------------------------------------------------
+
+//@ func io/nexus.WriteNexus
+//@   flag noframe
+//@   requires tchan != nil
+//@   recv tchan [message_is_a_tree_or_an_error] msg.Err == nil ==> msg.Tree != nil
+//@   call fmt.Sprintf@L2 [a_new_label_gets_the_next_free_number] a0 == "%d" && !has(taxLabelsMap, tip)
+//@   call fmt.Sprintf@L4 [translate_line_is_identifier_then_label] a0 == "   %s %s\n" && len(a1) == 2 && translate
+//@   call (*tree.Tree).Rename [the_clone_is_renamed_with_the_identifier_table] translate && a1 == taxLabelsMap && a0 == renameTree && a0 != t.Tree
+//@   loop 2
+//@     step [identifiers_are_handed_out_in_sequence] next(nbTax) == nbTax + (has(taxLabelsMap, tip) == atHead(has(taxLabelsMap, tip)) ? 0 : 1)
